@@ -1,6 +1,7 @@
 package main
 
 import (
+	"runtime/pprof"
 	"context"
 	"encoding/json"
 	"flag"
@@ -95,13 +96,20 @@ func readBaseline(path string) map[string]bool {
 }
 
 func main() {
+	if pf := os.Getenv("GOVC_PROF"); pf != "" {
+		f, _ := os.Create(pf)
+		pprof.StartCPUProfile(f)
+		defer pprof.StopCPUProfile()
+	}
 	if len(os.Args) < 2 {
 		fmt.Fprintln(os.Stderr, "usage: govc check|list|replay ...")
 		os.Exit(2)
 	}
 	switch os.Args[1] {
 	case "check":
-		os.Exit(cmdCheck(os.Args[2:]))
+		rc := cmdCheck(os.Args[2:])
+		pprof.StopCPUProfile()
+		os.Exit(rc)
 	case "replay":
 		os.Exit(cmdReplay(os.Args[2:]))
 	case "parse":
